@@ -10,6 +10,7 @@ from ._exceptions import (
     WebSocketBadStatusException,
     WebSocketConnectionClosedException,
     WebSocketException,
+    WebSocketPayloadException,
     WebSocketProtocolException,
 )
 from ._handshake import SUPPORTED_REDIRECT_STATUSES, handshake
@@ -416,7 +417,12 @@ class WebSocket:
         if opcode == ABNF.OPCODE_TEXT:
             data_received: Union[bytes, str] = data
             if isinstance(data_received, bytes):
-                return data_received.decode("utf-8")
+                try:
+                    return data_received.decode("utf-8")
+                except UnicodeDecodeError as e:
+                    raise WebSocketPayloadException(
+                        f"cannot decode: {repr(data_received)}"
+                    ) from e
             elif isinstance(data_received, str):
                 return data_received
         elif opcode == ABNF.OPCODE_BINARY:
